@@ -24,7 +24,8 @@ ASSUMPTIONS = [
     "shapes enumerated: native rank 2..3 (4 thorough), blocks 1..2 (3 thorough), listed groupings, depth <= 2 (3 thorough)",
 ]
 NOT_DECIDED = [
-    "block(); rejection of incompatibly fused operands beyond the listed cases; fusion depth 3",
+    "block() for symbolic structures (proved: values on enumerated concrete structures with symbolic data); rejection of incompatibly fused "
+    "operands beyond the listed cases; fusion depth 3",
     "operands with mismatched fused sectors are covered for an enumerated family of concrete structures (symbolic data), not for "
     "symbolic structures",
 ]
@@ -202,6 +203,155 @@ def h_fuse_rejects(V, sym):
     V.check('rejects-diagonal', out.exc is not None and isinstance(out.exc, YastnError))
 
 
+def block_oracle(tensors, common, V, dense_fn):
+    """
+    independent specification of the direct sum: along every blocked leg and inside every charge sector, the positions are laid out in
+    ascending order, each with the dimension that sector has in the union of the legs of the tensors sitting at that position;
+    returns {block charges: array} with zeros where no tensor contributes
+    """
+    import numpy as np
+    import yastn
+    t0 = next(iter(tensors.values()))
+    nd = t0.ndim
+    blocked = [n for n in range(nd) if n not in common]
+    full_pos = {}
+    for pos, a in tensors.items():
+        pa = [0] * nd
+        for b, x in zip(blocked, pos):
+            pa[b] = x
+        full_pos[tuple(pa)] = a
+    # union legs per (leg, position)
+    ul = []
+    for n in range(nd):
+        by = {}
+        for pa, a in full_pos.items():
+            by.setdefault(pa[n], []).append(a.get_legs(axes=n))
+        ul.append({p: yastn.legs_union(*ls) for p, ls in by.items()})
+    # offsets
+    off, tot = [], []
+    for n in range(nd):
+        o, tt = {}, {}
+        for t in sorted({t for lg in ul[n].values() for t in lg.t}):
+            lo = 0
+            for p in sorted(ul[n]):
+                lg = ul[n][p]
+                if t in lg.t:
+                    D = lg.D[lg.t.index(t)]
+                    o[(t, p)] = (lo, lo + D)
+                    lo += D
+            tt[t] = lo
+        off.append(o)
+        tot.append(tt)
+    out = {}
+    nsym = t0.config.sym.NSYM
+    for pa, a in full_pos.items():
+        for ts in a.get_blocks_charge():
+            tl = [tuple(ts[n * nsym:(n + 1) * nsym]) for n in range(nd)]
+            if ts not in out:
+                out[ts] = np.zeros(tuple(tot[n][tl[n]] for n in range(nd)), dtype=object)
+            key = tuple(slice(*off[n][(tl[n], pa[n])]) for n in range(nd))
+            out[ts][key] = np.asarray(V.call(a.__getitem__, ts))
+    return out, ul
+
+
+def h_block_values(V, sym, case):
+    """
+    block() -- the direct sum of tensors -- against its specification, for concrete structures with different sector content per
+    position and symbolic data: every block of the result equals the assembled array, no other block exists, the norm is the root of
+    the summed squares, the blocked legs record a 'sum' history and cannot be unfused, and block-matrix algebra holds for products.
+    """
+    import numpy as np
+    import yastn
+    from yastn import YastnError
+    from contracts.c01 import make_leg, symbolic_tensor, FULL
+    lA, lB, lC = make_leg(sym, 1, FULL), make_leg(sym, 1, 0b0111), make_leg(sym, 1, 0b1110)
+    rA, rB = make_leg(sym, -1, FULL), make_leg(sym, -1, 0b1011)
+    mid = make_leg(sym, 1, 0b0110 if MOD[sym] else FULL)
+    if case == 'matrix-2x2-one-missing':
+        T = {(0, 0): symbolic_tensor(V, 'a', sym, [lA, rA]), (0, 1): symbolic_tensor(V, 'b', sym, [lB, rB]), (1, 1): symbolic_tensor(V, 'c', sym, [lC, rB])}
+        common = ()
+    elif case == 'skipped-position':
+        T = {(0, 0): symbolic_tensor(V, 'a', sym, [lA, rA]), (2, 0): symbolic_tensor(V, 'b', sym, [lB, rB]), (2, 3): symbolic_tensor(V, 'c', sym, [lC, rA])}
+        common = ()
+    elif case == 'common-leg':
+        T = {(0, 0): symbolic_tensor(V, 'a', sym, [lA, mid, rA]), (1, 1): symbolic_tensor(V, 'b', sym, [lB, mid, rB]), (0, 1): symbolic_tensor(V, 'c', sym, [lC, mid, rB])}
+        common = (1,)
+    elif case == 'column':
+        T = {(0,): symbolic_tensor(V, 'a', sym, [lA, rA]), (1,): symbolic_tensor(V, 'b', sym, [lB, rA]), (2,): symbolic_tensor(V, 'c', sym, [lC, rA])}
+        common = (1,)
+    elif case == 'lazy-operand':
+        b = symbolic_tensor(V, 'b', sym, [rB.conj(), lB.conj()])
+        T = {(0, 0): symbolic_tensor(V, 'a', sym, [lA, rA]), (1, 1): V.call(V.call(b.transpose, (1, 0)).conj)}
+        common = ()
+    elif case == 'fused-operands':
+        # two tensors in one block row whose (shared) row leg was hard-fused from legs with DIFFERENT sector content: block() has to embed
+        # both into the union of the fusion histories.  Oracle: block-matrix algebra after unfusing -- (X Y).(D; E) = x.D + y.E
+        lB = make_leg(sym, 1, 0b0101)              # differs from lA in every symmetry with more than one sector
+        a = symbolic_tensor(V, 'a', sym, [lA, mid, rA])
+        b = symbolic_tensor(V, 'b', sym, [lB, mid, rB])
+        X, Y = V.call(a.fuse_legs, axes=((0, 1), 2), mode='hard'), V.call(b.fuse_legs, axes=((0, 1), 2), mode='hard')
+        out_leg = make_leg(sym, -1, 0b0111)
+        Dm = symbolic_tensor(V, 'd', sym, [rA.conj(), out_leg])
+        Em = symbolic_tensor(V, 'e', sym, [rB.conj(), out_leg])
+        row = V.call(yastn.block, {(0, 0): X, (0, 1): Y})
+        check_wf_native(V, row)
+        colm = V.call(yastn.block, {(0, 0): Dm, (1, 0): Em})
+        prod_ = V.call(V.call(row.tensordot, colm, axes=((1,), (0,))).unfuse_legs, axes=0)
+        u0 = yastn.legs_union(lA, lB)
+        lg = {0: u0, 1: mid, 2: out_leg}
+        P = np.asarray(V.call(prod_.to_numpy, legs=lg))
+        A3 = np.asarray(V.call(a.to_numpy, legs={0: u0, 1: mid, 2: rA}))
+        B3 = np.asarray(V.call(b.to_numpy, legs={0: u0, 1: mid, 2: rB}))
+        Dd = np.asarray(V.call(Dm.to_numpy, legs={0: rA.conj(), 1: out_leg}))
+        Ed = np.asarray(V.call(Em.to_numpy, legs={0: rB.conj(), 1: out_leg}))
+        R = np.tensordot(A3, Dd, axes=((2,), (0,))) + np.tensordot(B3, Ed, axes=((2,), (0,)))
+        V.check_equal('fused-operands:block-row-times-block-column-equals-the-sum-of-products', P.ravel().tolist() if P.shape == R.shape else [0, 1],
+                      R.ravel().tolist() if P.shape == R.shape else [1, 0])
+        nr = V.call(row.vdot, row)
+        V.check_equal('fused-operands:norm-of-the-block-row', [nr], [(A3 * A3).sum() + (B3 * B3).sum()])
+        return
+    else:
+        raise ValueError(case)
+    r = V.call(yastn.block, T, common_legs=common if common else None)
+    check_wf_native(V, r)
+    want, ul = block_oracle(T, common, V, None)
+    got_ts = list(V.call(r.get_blocks_charge))
+    V.check('blocks-of-the-result-are-exactly-the-charges-present-in-some-operand', sorted(got_ts) == sorted(want))
+    for ts, arr in want.items():
+        if ts in got_ts:
+            g = np.asarray(V.call(r.__getitem__, ts))
+            V.check_equal(f'block-equals-the-assembled-array', g.ravel().tolist() if g.shape == arr.shape else [0, 1], arr.ravel().tolist() if g.shape == arr.shape else [1, 0])
+    nd = next(iter(T.values())).ndim
+    for n in range(nd):
+        lg = r.get_legs(axes=n)
+        if n in common:
+            continue
+        V.check('blocked-leg-records-a-sum-of-the-position-legs', lg.hf.op[0] == 's' and lg.hf.tree[0] == len(ul[n]))
+    blocked0 = [n for n in range(nd) if n not in common][0]
+    out = V.outcome(r.unfuse_legs, axes=blocked0)
+    V.check('blocked-leg-cannot-be-unfused', out.raised(YastnError))
+    # block-matrix algebra: (A B) . (D; E) = A.D + B.E   (contraction over a blocked leg of both factors)
+    if case == 'matrix-2x2-one-missing':
+        a, b = T[(0, 0)], T[(0, 1)]
+        d = symbolic_tensor(V, 'd', sym, [rA.conj(), lA.conj()])
+        e = symbolic_tensor(V, 'e', sym, [rB.conj(), lA.conj()])
+        row = V.call(yastn.block, {(0, 0): a, (0, 1): b})
+        colm = V.call(yastn.block, {(0, 0): d, (1, 0): e})
+        prod_ = V.call(row.tensordot, colm, axes=((1,), (0,)))
+        ref = V.call(V.call(a.tensordot, d, axes=((1,), (0,))).__add__, V.call(b.tensordot, e, axes=((1,), (0,))))
+        lg = {0: row.get_legs(axes=0), 1: colm.get_legs(axes=1)}
+        P = np.asarray(V.call(prod_.to_numpy, legs=lg))
+        u0 = yastn.legs_union(a.get_legs(axes=0), b.get_legs(axes=0))
+        R = np.asarray(V.call(ref.to_numpy, legs={0: u0, 1: lA.conj()}))
+        V.check_equal('block-row-times-block-column-equals-the-sum-of-products', P.ravel().tolist() if P.shape == R.shape else [0, 1], R.ravel().tolist() if P.shape == R.shape else [1, 0])
+
+
+def check_wf_native(V, r):
+    """ is_consistent of the real library on the (concrete-structure) result """
+    out = V.outcome(r.is_consistent)
+    V.check('result-passes-is_consistent', out.exc is None)
+
+
 def h_fused_mismatch(V, sym, mode, lazy):
     """
     Operands fused from legs with DIFFERENT sector content (concrete structures, symbolic real data; the real mask machinery
@@ -261,6 +411,9 @@ def units(tier):
         for mode in ('hard', 'meta'):
             for lazy in (False, True):
                 U.append(('h_fused_mismatch', f"{sym},{mode},lazy={lazy}", dict(sym=sym, mode=mode, lazy=lazy)))
+    for sym in (ALL_SYMS if th else ('dense', 'Z2', 'U1', 'U1xU1xZ2')):
+        for case in ('matrix-2x2-one-missing', 'skipped-position', 'common-leg', 'column', 'lazy-operand', 'fused-operands'):
+            U.append(('h_block_values', f"{sym},{case}", dict(sym=sym, case=case)))
     syms = ALL_SYMS if th else ('dense', 'Z2', 'U1', 'Z2xU1')
     cases = [  # nd, axes, trans
         (2, ((0, 1),), None), (2, ((1, 0),), None), (3, ((0, 1), 2), None), (3, (0, (1, 2)), None), (3, ((2, 0), 1), None),
